@@ -129,7 +129,7 @@ def run(tier):
         verdicts = [b["verdict"] for b in group]
         want = "reject" if "reject" in verdicts else ("unspecified" if "unspecified" in verdicts else "accept")
         feat = {"kinds": sorted(varied), "methods": [b["method"] for b in group], "params": [[n for n, _ in b["cfg"]] for b in group],
-                "types": [[v["t"] for _, v in b["cfg"]] for b in group], "expected": want, "multiband": multiband, "label": label,
+                "types": [[v["t"] for _, v in b["cfg"]] for b in group], "expected": want, "multiband": multiband,
                 "with_validation": with_validation, "machine_reused": reuse}
         mL, mR = metas[multiband]
         try:
@@ -138,7 +138,7 @@ def run(tier):
         except Exception as exc:  # pylint: disable=broad-except
             out, got = None, "reject"
             feat["exception"] = type(exc).__name__
-        rec = {"user_cfg": user, "returned": out, "behaviours": group}
+        rec = {"user_cfg": user, "returned": out, "behaviours": group, "label": label}
         if want != "unspecified" and got != want:
             chk.violation("accept_iff_in_domain", dict(feat, got=got), rec, f"{label}: expected {want}, got {got}: {user['pipeline']}")
             return
